@@ -72,7 +72,7 @@ def run(ctx):
     binary = ctx.build("pv-cbor")
     tier = 2 if ctx.thorough else 1
     ctx.assume("Blake2b-256 is uninterpreted: the harness hashes the specification's pre-image with Hasher::<256> (C10 covers the hash itself)")
-    ctx.assume("datum-only witness sets with caller-supplied views: both A0|datums|views and A0|datums|A0 are acceptable (property silent)")
+    ctx.assume("a witness set without redeemers runs no script: its view part is the empty map (CDDL: A0 | datums | A0) whatever cost models are supplied")
 
     cfg = ctx.path("MCScriptIntegrity.cfg")
     src = open(os.path.join(vlib.SPEC, SPEC_DIR, "MCScriptIntegrity.cfg")).read()
